@@ -362,12 +362,12 @@ pub fn run_history(out: &mut Out, h: &[Op], record: bool) -> Vec<String> {
         let d = w.dump();
         out.monitor_evals += 1;
         if let Some(what) = cfg_violation(&d, &prev) {
-            out.monitor_fail("C18", &format!("after op #{k} ({}): {what}", op.kind()), replay.clone());
+            mfail(out, "C18", &format!("after op #{k} ({}): {what}", op.kind()), replay.clone());
         }
         if !ok {
             out.monitor_evals += 1;
             if d != prev || w.raw() != raw_before {
-                out.monitor_fail("C18", &format!("op #{k} ({}) was rejected but changed stored state", op.kind()), replay.clone());
+                mfail(out, "C18", &format!("op #{k} ({}) was rejected but changed stored state", op.kind()), replay.clone());
             }
         }
         if record {
